@@ -1,5 +1,5 @@
 SPECIFICATION Spec
 CONSTANTS
   Keys = {"a", "b", "c", "-"}
-  MaxPool = 6
+  MaxPool = 16
 CHECK_DEADLOCK FALSE
